@@ -337,9 +337,12 @@ package parse
 
 // replaceEntities rewrites one character reference in place. Caller obligation (property C17's quantifier):
 // a replacement is never longer than the reference it replaces.
+//@ pred isRefChar(c) := ('0' <= c && c <= '9') || ('a' <= c && c <= 'z') || ('A' <= c && c <= 'Z') || c == '#'
 //@ func replaceEntities
+// a reference is not decoded to a bare '&' in front of something that would then read as a reference itself
+//@   ensures[F,C17] @amp-guard: len(result0) < len(b) && result1 == i && result0[i] == '&' && i + 1 < len(result0) ==> !isRefChar(result0[i+1])
 //@   mapspec entitiesMap: ok ==> len(value) <= len(key) + 2
-//@   mapspec revEntitiesMap: ok ==> len(value) <= n
+//@   mapspec revEntitiesMap: ok ==> len(value) <= n && len(value) >= 2
 //@   requires[S] 0 <= i && i+3 < len(b) && b[i] == '&'
 //@   ensures[S]  len(result0) <= len(b) && ptr(result0) == ptr(b) && cap(result0) == cap(b)
 //@   ensures[S]  i - 1 <= result1 && result1 < len(result0)
@@ -354,7 +357,7 @@ package parse
 
 //@ func ReplaceEntities
 //@   mapspec entitiesMap: ok ==> len(value) <= len(key) + 2
-//@   mapspec revEntitiesMap: ok ==> len(value) <= n
+//@   mapspec revEntitiesMap: ok ==> len(value) <= n && len(value) >= 2
 //@   ensures[S,C17] @never-longer: len(result) <= len(b)
 //@   loop * candidate 0 <= i && i <= len(b)
 //@   loop * candidate -1 <= i && i <= len(b)
@@ -364,7 +367,7 @@ package parse
 //@ func ReplaceMultipleWhitespaceAndEntities
 //@   noverify
 //@   mapspec entitiesMap: ok ==> len(value) <= len(key) + 2
-//@   mapspec revEntitiesMap: ok ==> len(value) <= n
+//@   mapspec revEntitiesMap: ok ==> len(value) <= n && len(value) >= 2
 //@   ensures[S,C17] @never-longer: len(result) <= len(b)
 //@   loop * candidate 0 <= j && j <= k && k <= i
 //@   loop * candidate -1 <= i && i <= len(b) + 1
